@@ -171,6 +171,30 @@ def finish(rep, t0, seed, replay_only=False):
     return 1 if viol else 0
 
 
+def selfcheck(rep, pid):
+    """thorough tier: re-test every rule of this property both ways on scratch copies of /repo's current tree (removed
+    afterwards): each behaviour-breaking seed must fire its rule, each neutral rewrite must stay silent.  A seed whose
+    anchor text no longer exists on this tree is skipped (counted), not failed."""
+    sys.path.insert(0, os.path.join(VERIF, 'tools'))
+    import run_seeds
+    import io
+    import contextlib
+    buf = io.StringIO()
+    with contextlib.redirect_stdout(buf):
+        res = run_seeds.run([pid], jobs=int(os.environ.get('VERIF_JOBS', '12')))
+    ok = [r for r in res if r[1]]
+    skipped = [r for r in res if not r[1] and r[2] == 3]
+    bad = [r for r in res if not r[1] and r[2] != 3]
+    rep.extra['selfcheck'] = {'seeds': len(res), 'as_expected': len(ok), 'skipped_anchor_changed': [r[0]['id'] for r in skipped],
+                              'not_as_expected': [{'id': r[0]['id'], 'expect': r[0].get('expect') or 'silent', 'exit': r[2], 'fired': r[3]}
+                                                  for r in bad]}
+    rep.note('self-check: %d seeds, %d as expected, %d skipped (anchor text changed), %d not as expected'
+             % (len(res), len(ok), len(skipped), len(bad)))
+    for r in bad:
+        rep.broken.append('self-check seed %s: expected %s, got exit %d fired %s -- a rule no longer behaves as tested'
+                          % (r[0]['id'], r[0].get('expect') or 'silent', r[2], ','.join(r[3]) or '-'))
+
+
 def main():
     ap = argparse.ArgumentParser()
     ap.add_argument('pid')
@@ -198,6 +222,9 @@ def main():
             for o in rep.obl:
                 print('replay: %s %s [%s] at %s -> %s: %s' % (o['rule'], o['function'], o['role'], o['where'],
                                                               o['verdict'], o['detail']))
+        if tier == 'thorough' and not a.replay and not os.environ.get('VERIF_NO_SELFCHECK') and \
+                not any(o['verdict'] == 'violation' for o in rep.obl) and not rep.broken:
+            selfcheck(rep, a.pid)
         rc = finish(rep, t0, seed, replay_only=bool(a.replay))
         if rc == 0 and rep.broken:
             for b in rep.broken:
